@@ -125,6 +125,11 @@ func Solve(o *Obligation, opts solveOpts) {
 				o.Answer, o.Backend, o.Ms, o.Output = "unsat", solvers[0].name+" (without the engine's quantified lemmas)", time.Since(t0).Milliseconds(), firstLines(out, 2)
 				return
 			}
+			if ans == "sat" {
+				// refutable without the quantified lemmas: if the full query then runs out of time, that is the
+				// solver looping on a satisfiable quantified problem, not load, so it is not retried
+				o.qfSat = true
+			}
 		}
 	}
 	files := map[string]string{}
@@ -312,7 +317,7 @@ func SolveAll(obls []*Obligation, opts solveOpts) {
 	// a time, three times the budget): a time-out under load is not a reason to raise an alarm.
 	var retry []*Obligation
 	for _, o := range obls {
-		if !o.ExpectSat && !o.NoRetry && o.Answer != "sat" && o.Answer != "unsat" {
+		if !o.ExpectSat && !o.NoRetry && !o.qfSat && o.Answer != "sat" && o.Answer != "unsat" {
 			retry = append(retry, o)
 		}
 	}
